@@ -985,7 +985,14 @@ func (ex *Exec) siteAsserts(f *frame, st *State, b *ssa.BasicBlock, ins ssa.Inst
 	}
 	text := ex.V.srcText(ins, ins.Pos())
 	for _, sa := range f.contract.Sites {
-		if !strings.HasPrefix(text, sa.Site) {
+		if name, ok := strings.CutPrefix(sa.Site, "call:"); ok {
+			// at "call:<name>": before every call (go, defer) of a function or method of that name
+			// at "call:<name>@<case>": only inside that case of a (type) switch
+			name, cs, inCase := strings.Cut(name, "@")
+			if calleeName(ins) != name || (inCase && ex.V.enclosingCase(ins.Pos()) != cs) {
+				continue
+			}
+		} else if !strings.HasPrefix(text, sa.Site) {
 			continue
 		}
 		sa.Hits++
@@ -1004,6 +1011,22 @@ func (ex *Exec) siteAsserts(f *frame, st *State, b *ssa.BasicBlock, ins ssa.Inst
 		}
 		ex.oblige(f, st, "assert", detail, sa.Label, ins.Pos(), v.t, "assertion before "+sa.Site+": "+sa.Text)
 	}
+}
+
+// calleeName: the name of the function or method an instruction calls ("" when it calls a function value).
+func calleeName(ins ssa.Instruction) string {
+	ci, ok := ins.(ssa.CallInstruction)
+	if !ok {
+		return ""
+	}
+	c := ci.Common()
+	if c.IsInvoke() {
+		return c.Method.Name()
+	}
+	if fn := c.StaticCallee(); fn != nil {
+		return fn.Name()
+	}
+	return ""
 }
 
 func (f *frame) phiLocs(phi *ssa.Phi) {
